@@ -679,10 +679,29 @@ class Streams:
     def real_only(self):
         self.known_tensor4d()
         self.known_chain_take()
+        self.known_locate_empty()
         self.interning()
         self.findex_fcoords()
         self.interface_sides()
         self.locate()
+
+    def known_locate_empty(self):
+        """locate with skip_missing=True and no target inside the domain"""
+        from nutils import mesh
+        sig = 'locate-no-point-located:indexerror'
+        topo, geom = mesh.rectilinear([3, 2])
+        try:
+            n = topo.locate(geom, [[-3., -3.]], tol=1e-10, skip_missing=True).npoints
+            still = n != 0
+            out = 'npoints=%d' % n
+        except Exception as e:
+            still = True; out = type(e).__name__ + ': ' + str(e)[:100]
+        self.tick('explore:known-locate-empty'); self.c.case(('known-locate-empty',), nontrivial=True)
+        entry = self.c.match_known(sig)
+        if entry is not None:
+            self.c.report_known_still_failing(entry, still)
+        elif still:
+            self.c.failing_input(sig, 'rectilinear([3,2]).locate(geom, [[-3,-3]], tol=1e-10, skip_missing=True) gives %s instead of an empty sample' % out, dict(op='known-locate-empty', real=out))
 
     def known_chain_take(self):
         """References._Chain.take / PointsSequence._Chain.take with indices that are not sorted across the chain boundary"""
@@ -800,14 +819,17 @@ class Streams:
         for label, f in cases:
             topo, geom = f()
             n = len(topo)
-            variants = [('interfaces', lambda: topo.interfaces), ('refined.interfaces', lambda: topo.refined.interfaces), ('interfaces.refined', lambda: topo.interfaces.refined),
-                        ('refined_by.interfaces', lambda: topo.refined_by(rng.sample(range(n), 1)).interfaces), ('refined.refined.interfaces', lambda: topo.refined.refined.interfaces)]
+            def rb():
+                t = topo.refined_by(rng.sample(range(n), 1)); return t, t.interfaces
+            variants = [('interfaces', lambda: (topo, topo.interfaces)), ('refined.interfaces', lambda: (topo.refined, topo.refined.interfaces)),
+                        ('interfaces.refined', lambda: (topo.refined, topo.interfaces.refined)), ('refined_by.interfaces', rb),
+                        ('refined.refined.interfaces', lambda: (topo.refined.refined, topo.refined.refined.interfaces))]
             for l2, g in (variants if not self.quick else rng.sample(variants, 2)):
                 try:
-                    ifc = g()
+                    base, ifc = g()
                     if not len(ifc): continue
                     smp = ifc.sample('bezier', 2)
-                    x, xo, j = smp.eval([geom, function.opposite(geom), function.jump(geom)])
+                    x, xo, j, i1, i2 = smp.eval([geom, function.opposite(geom), function.jump(geom), base.f_index, function.opposite(base.f_index)])
                 except Exception as e:
                     self.c.count('interfaces-skipped:' + type(e).__name__); continue
                 self.tick(ob); self.c.case(('ifc', label, l2), nontrivial=True); self.c.count('interface-points', len(x))
@@ -816,6 +838,20 @@ class Streams:
                     k = int(numpy.argmax(numpy.abs(x - xo).sum(axis=-1) if x.ndim > 1 else numpy.abs(x - xo)))
                     self.fail(ob, 'interface-sides-disagree', 'the two sides of an interface of %s.%s map a shared point to different locations: %r vs %r' % (label, l2, x[k], xo[k]),
                               dict(label=label, variant=l2, point=k, x=repr(x[k]), xo=repr(xo[k])))
+                    continue
+                # the two sides are the two elements the transform chains of the interface belong to (and they differ)
+                bad = None
+                for k in range(smp.nelems):
+                    idx = smp.getindex(k)
+                    try:
+                        w1 = base.transforms.index_with_tail(ifc.transforms[k])[0]; w2 = base.transforms.index_with_tail(ifc.opposites[k])[0]
+                    except ValueError:
+                        self.c.count('interface-side-not-in-base'); continue
+                    if [int(v) for v in i1[idx]] != [w1] * len(idx) or [int(v) for v in i2[idx]] != [w2] * len(idx) or w1 == w2:
+                        bad = (k, w1, w2, [int(v) for v in i1[idx]], [int(v) for v in i2[idx]]); break
+                if bad:
+                    self.fail(ob, 'interface-opposite-index-wrong', 'f_index / opposite(f_index) on interface %d of %s.%s evaluate to %r / %r, the chains belong to elements %d / %d' % (bad[0], label, l2, bad[3], bad[4], bad[1], bad[2]),
+                              dict(label=label, variant=l2, interface=bad[0]))
                 else:
                     self.c.traces += 1
 
@@ -873,7 +909,11 @@ class Streams:
                         return None   # point may sit in the removed element: undecided here
                     ins = [inside(p) for p in par]
                     if res[0] == 'exc':
-                        self.fail(ob, 'locate-raises-other', 'locate raises %s' % res[1], replay); continue
+                        if res[1].startswith('IndexError') and skip and all(i is False for i in ins):
+                            self.fail(ob, 'locate-no-point-located:indexerror', 'locate(skip_missing=True) raises IndexError instead of returning an empty sample when no target is located', replay)
+                        else:
+                            self.fail(ob, 'locate-raises-other', 'locate raises %s' % res[1], replay)
+                        continue
                     if res[0] == 'locate-error':
                         if all(i is True for i in ins):
                             self.fail(ob, 'locate-error-for-inside-points', 'locate raises LocateError although every target lies inside the topology', replay)
